@@ -1,5 +1,156 @@
-//! Re-execution of the harness binary as an isolated child process.
+//! Re-execution of the harness binary as an isolated child process
+//! (`vcheck --child`): own environment (EGGLOG_PARALLEL_* are read once per
+//! process), own thread pools, crash / deadlock isolation.
+//!
+//! Protocol: the parent writes one JSON document {"kind": .., "payload": ..} to
+//! the child's stdin; the child prints one JSON document on its last stdout line.
 
-pub fn child_main(_args: &[String]) -> i32 {
-    2
+use serde_json::{json, Value as J};
+use std::io::{Read, Write};
+use std::process::{Command, Stdio};
+use std::time::{Duration, Instant};
+
+#[derive(Debug, Clone)]
+pub enum ChildResult {
+    /// child exited 0 and printed a JSON result
+    Ok(J),
+    /// child died (signal, abort, non-zero exit)
+    Crashed { status: String, stderr: String },
+    /// watchdog expired and every thread of the child was asleep with no CPU progress: deadlock suspect
+    Quiescent { stderr: String },
+    /// watchdog expired while the child was still burning CPU: inconclusive
+    Busy,
+    /// could not start / protocol error
+    Broken(String),
+}
+
+pub struct ChildJob<'a> {
+    pub kind: &'a str,
+    pub payload: J,
+    pub env: Vec<(String, String)>,
+    pub timeout: Duration,
+    pub cwd: Option<std::path::PathBuf>,
+}
+
+fn cpu_ticks(pid: u32) -> Option<(u64, bool)> {
+    // sum of utime+stime over all tasks; and whether all tasks are sleeping
+    let mut total = 0u64;
+    let mut all_sleeping = true;
+    let rd = std::fs::read_dir(format!("/proc/{pid}/task")).ok()?;
+    for e in rd.flatten() {
+        let stat = std::fs::read_to_string(e.path().join("stat")).ok()?;
+        let after = stat.rsplit_once(") ")?.1;
+        let f: Vec<&str> = after.split_whitespace().collect();
+        // f[0]=state, utime=f[11], stime=f[12]
+        if f.len() > 12 {
+            if f[0] != "S" && f[0] != "D" {
+                all_sleeping = false;
+            }
+            total += f[11].parse::<u64>().unwrap_or(0) + f[12].parse::<u64>().unwrap_or(0);
+        }
+    }
+    Some((total, all_sleeping))
+}
+
+pub fn run_child(job: ChildJob) -> ChildResult {
+    let exe = match std::env::current_exe() {
+        Ok(e) => e,
+        Err(e) => return ChildResult::Broken(e.to_string()),
+    };
+    let mut cmd = Command::new(exe);
+    cmd.arg("--child").arg(job.kind).stdin(Stdio::piped()).stdout(Stdio::piped()).stderr(Stdio::piped());
+    for (k, v) in &job.env {
+        cmd.env(k, v);
+    }
+    if let Some(d) = &job.cwd {
+        cmd.current_dir(d);
+    }
+    let mut ch = match cmd.spawn() {
+        Ok(c) => c,
+        Err(e) => return ChildResult::Broken(e.to_string()),
+    };
+    {
+        let mut stdin = ch.stdin.take().unwrap();
+        let _ = stdin.write_all(job.payload.to_string().as_bytes());
+    }
+    let mut stdout = ch.stdout.take().unwrap();
+    let mut stderr = ch.stderr.take().unwrap();
+    let out_t = std::thread::spawn(move || {
+        let mut s = String::new();
+        let _ = stdout.read_to_string(&mut s);
+        s
+    });
+    let err_t = std::thread::spawn(move || {
+        let mut s = String::new();
+        let _ = stderr.read_to_string(&mut s);
+        s
+    });
+    let start = Instant::now();
+    let status = loop {
+        match ch.try_wait() {
+            Ok(Some(st)) => break Some(st),
+            Ok(None) => {}
+            Err(e) => return ChildResult::Broken(e.to_string()),
+        }
+        if start.elapsed() > job.timeout {
+            break None;
+        }
+        std::thread::sleep(Duration::from_millis(if start.elapsed() < Duration::from_millis(200) { 2 } else { 20 }));
+    };
+    match status {
+        Some(st) => {
+            let out = out_t.join().unwrap_or_default();
+            let err = err_t.join().unwrap_or_default();
+            if st.success() {
+                match out.lines().rev().find(|l| !l.trim().is_empty()).and_then(|l| serde_json::from_str::<J>(l).ok()) {
+                    Some(j) => ChildResult::Ok(j),
+                    None => ChildResult::Broken(format!("child printed no JSON; stdout={out:?} stderr={err:?}")),
+                }
+            } else {
+                ChildResult::Crashed { status: format!("{st}"), stderr: err.chars().rev().take(2000).collect::<String>().chars().rev().collect() }
+            }
+        }
+        None => {
+            // watchdog: quiescent or busy?
+            let pid = ch.id();
+            let a = cpu_ticks(pid);
+            std::thread::sleep(Duration::from_millis(1500));
+            let b = cpu_ticks(pid);
+            let quiescent = match (a, b) {
+                (Some((ta, sa)), Some((tb, sb))) => sa && sb && ta == tb,
+                _ => false,
+            };
+            let _ = ch.kill();
+            let _ = ch.wait();
+            let err = err_t.join().unwrap_or_default();
+            let _ = out_t.join();
+            if quiescent { ChildResult::Quiescent { stderr: err } } else { ChildResult::Busy }
+        }
+    }
+}
+
+pub fn child_main(args: &[String]) -> i32 {
+    let kind = args.first().cloned().unwrap_or_default();
+    let mut input = String::new();
+    if std::io::stdin().read_to_string(&mut input).is_err() {
+        return 3;
+    }
+    let payload: J = match serde_json::from_str(&input) {
+        Ok(j) => j,
+        Err(e) => {
+            eprintln!("child: bad payload: {e}");
+            return 3;
+        }
+    };
+    let res: Option<J> = crate::registry::child_dispatch(&kind, &payload);
+    match res {
+        Some(j) => {
+            println!("{}", j);
+            0
+        }
+        None => {
+            println!("{}", json!({"error": format!("unknown child kind {kind}")}));
+            3
+        }
+    }
 }
